@@ -456,8 +456,8 @@ def check_cases(ctx, cases):
                 pre, ver, typ, hexid = want_swhid.split(":")
                 flip = lambda ch: "0" if ch != "0" else "f"
                 near = [verify_arg,
-                        ":".join([pre, ver, {"cnt": "dir", "dir": "cnt"}.get(typ, "rev"), hexid]),
-                        ":".join([pre, ver, ["rev", "rel", "snp"][len(canon_key(case)) % 3], hexid]),
+                        ":".join([pre, ver, {"cnt": "dir", "dir": "cnt", "rev": "rel"}.get(typ, "rev"), hexid]),
+                        ":".join([pre, ver, [t_ for t_ in ("rev", "rel", "snp") if t_ != typ][len(canon_key(case)) % 2], hexid]),
                         ":".join([pre, ver, typ, hexid[:-1] + flip(hexid[-1])]),
                         ":".join([pre, ver, typ, flip(hexid[0]) + hexid[1:]])]
                 verify_arg = near[(case["fixture"] + len(canon_key(case))) % len(near)]
